@@ -28,7 +28,7 @@ import (
 	"verif/mc/props"
 )
 
-const root = "/verif"
+var root = props.Root()
 
 type knownFinding struct {
 	Status    string `json:"status"` // known | fixed
